@@ -337,7 +337,13 @@ def handleContexts (toks : List String) : String :=
       | .goal (.bip _ (some (.cons a (.cons _ .nil)))) => enc a | .err => "err" | .panic => "panic" | _ => "other"
     let inQuery := match runEntry "query" ("q(".toList ++ s ++ [')']) with
       | .goal (.call (.cplx (.cons _ (.cons a .nil)))) => enc a | .err => "err" | .panic => "panic" | _ => "other"
-    String.intercalate " | " [alone, inComplex, inList, inInfix, inQuery]
+    let inComplex2 := match runEntry "complex" ("f(2.5, ".toList ++ s ++ [')']) with
+      | .term (.cplx (.cons _ (.cons _ (.cons a .nil)))) => enc a | .err => "err" | .panic => "panic" | _ => "other"
+    let inComplex3 := match runEntry "complex" ("f(\"x y\", a.b, ".toList ++ s ++ ", 1)".toList) with
+      | .term (.cplx (.cons _ (.cons _ (.cons _ (.cons a (.cons _ .nil)))))) => enc a | .err => "err" | .panic => "panic" | _ => "other"
+    let inList2 := match runEntry "list" ("[0.5, ".toList ++ s ++ [']']) with
+      | .term (.cons _ (.cons t _ _ _) _ _) => enc t | .term _ => "other" | .err => "err" | .panic => "panic" | _ => "other"
+    String.intercalate " | " [alone, inComplex, inList, inInfix, inQuery, inComplex2, inComplex3, inList2]
 
 /-- rules grouped by key, keys sorted (what `format_kb` lists) -/
 def groupRules (rules : List Rule) : Option (List (String × List Rule)) :=
